@@ -30,12 +30,14 @@ Mutants this was built against (all caught, see the final report):
               component list ("a" < "a-b" < "a/b")           -> oracle (cover not unique)
   M2 path.rs  is_inside = byte-prefix (`as_os_str().as_bytes().starts_with`) -> oracle
   M3 path.rs  scan compares with sorted_paths[0] instead of search_paths.last() -> oracle (antichain)
-  M4 lib.rs   split_lines slices `..newline` / `newline..` (newline starts the next line) -> probe oracle
+  M4 lib.rs   split_lines returns None instead of the unterminated last line -> probe oracle
   M5 lib.rs   chunks_to_lines drops the `self.tail.is_empty()` guard of the well-formed fast path -> probe oracle
   M6 osutils-py PyChunksToLinesIterator: fast path `newline == len-1` -> `memchr(..).is_some()` -> oracle
   M7 time.rs  unpack: `offset_minutes = offset % 100` dropped from seconds_offset -> oracle
   M8 time.rs  format: fraction printed with 6 digits                     -> T2 + oracle (k/512 needs 9)
   M9 path.rs  splitpath keeps "." segments                                -> T2 mismatch + oracle
+  M10 path.rs joinpath no longer rejects "" components                    -> T2 + oracle (accepted but not split back)
+  M12 path.rs minimum_path_selection early return `len < 3`               -> oracle
   H1 (harmless) is_inside_any rewritten with `iter().any`                -> clean
 """
 import itertools
@@ -210,7 +212,7 @@ def gen_path_sets(ctx):
         for s in itertools.combinations(small, k):
             yield list(s)
     big = _all_paths(3)
-    for _ in range(ctx.pick(1500, 15000)):
+    for _ in range(ctx.pick(4000, 40000)):
         n = rng.choice([2, 3, 3, 4, 5, 6, 8])
         # cluster around a few stems so that containment is frequent
         stems = rng.sample(big, 3)
@@ -393,6 +395,9 @@ def run_splitjoin(ctx, osu):
                 ctx.violation(case, "joinpath rejects valid components %r" % (cs,))
             elif osu.splitpath(r) != cs:
                 ctx.violation(case, "splitpath(joinpath(%r)) = %r" % (cs, osu.splitpath(r)))
+        elif e is None and all("/" not in c and c != "." for c in cs) and _err(osu.splitpath, r)[0] != cs:
+            # whatever joinpath accepts (apart from embedded separators and '.') must split back
+            ctx.violation(case, "joinpath(%r) = %r is accepted but splits back to %r" % (cs, r, _err(osu.splitpath, r)))
         ctx.case(case, nontrivial=len(cs) > 1)
         ctx.count("joinpath:%s" % ("err" if e else "ok"))
         cases.append(case); lines.append("joinpath " + hxl(cs)); outs.append(out)
@@ -436,7 +441,7 @@ def gen_texts(ctx):
     for n in range(0, L + 1):
         for t in itertools.product(b"a\nb", repeat=n):
             yield bytes(t)
-    for _ in range(ctx.pick(400, 4000)):
+    for _ in range(ctx.pick(1500, 12000)):
         n = ctx.rng.randrange(7, 40)
         yield bytes(ctx.rng.choice(b"ab\n\n\r") for _ in range(n))
 
@@ -525,11 +530,11 @@ def gen_seconds(ctx):
         z = days_from_civil(y, m, d)
         for s in (0, 1, 59, 3599, 3600, 43200, 86399):
             out.append(z * DAY + s)
-    for _ in range(ctx.pick(300, 3000)):
+    for _ in range(ctx.pick(1000, 10000)):
         out.append(ctx.rng.randrange(-62135596800 + 2 * DAY, 253402300800 - 2 * DAY))
-    for _ in range(ctx.pick(300, 3000)):
+    for _ in range(ctx.pick(800, 8000)):
         out.append(ctx.rng.randrange(-3 * DAY, 3 * DAY))
-    for _ in range(ctx.pick(200, 2000)):
+    for _ in range(ctx.pick(600, 6000)):
         out.append(ctx.rng.randrange(0, 2 ** 32))
     return out
 
@@ -772,6 +777,8 @@ def _replay_one(ctx, osu, case):
         r, e = _err(osu.joinpath, cs)
         if all(valid_comp(c) for c in cs) and (e or osu.splitpath(r) != cs):
             ctx.violation(case, "splitpath(joinpath(%r)) is not the identity: %r" % (cs, e or osu.splitpath(r)))
+        elif e is None and all("/" not in c and c != "." for c in cs) and _err(osu.splitpath, r)[0] != cs:
+            ctx.violation(case, "joinpath(%r) = %r is accepted but splits back to %r" % (cs, r, _err(osu.splitpath, r)))
         m = ctx.model(["joinpath " + hxl(cs)])[0]
         return dict(impl=e if e else hx(r), model=m)
     if op in ("split_lines", "core.split_lines"):
@@ -821,6 +828,8 @@ def run(ctx):
     run_splitjoin(ctx, osu)
     run_lines(ctx, osu)
     run_dates(ctx, osu)
+    # report violations outside the known defect families first (stable)
+    ctx.violations.sort(key=lambda v: v.get("family") is not None)
 
 
 def widen(ctx):
